@@ -229,6 +229,15 @@ class World:
         from .inline import Inliner, must_inline_policy
         self._unit = Inliner(self.prog, must_inline_policy)
         self.effects.unit_inliner = self._unit
+        from .cfg import Cfg
+
+        def pure_call(term, _w=self):
+            tgt = _w.prog.target(term)
+            if tgt is None:
+                return False
+            sm = _w.effects.summary(tgt)
+            return not sm["writes"] and not sm["unknown"]
+        Cfg.pure_call_hook = staticmethod(pure_call)
 
     def qi(self, fn, policy=None):
         """query object over the INLINED view of fn (private same-crate helpers spliced in)"""
